@@ -125,6 +125,28 @@ def alias_values(ctx, r):
                 if not same:
                     dis.append(f"{tag} momentum array {sig}: .{syn} differs from .{geo}: {why}"[:300])
                     fails.append({"key": f"{tag}-alias:{syn}", "what": dis[-1], "code": None})
+    # the flavor never changes a number: operators / ufuncs / properties of a momentum array equal those of the generic array with the
+    # same stored coordinates (NumPy and Awkward)
+    for sig in sigs:
+        rows = [C.cart_to_stored(sig, p) for p in C.strata_points(len(sig) + 1, r, n_random=2)[:5]]
+        for tag, mk in (("numpy", C.np_array), ("awkward", C.ak_array)):
+            ma, ga = mk("m", sig, rows), mk("g", sig, rows)
+            forms = {"abs(v)": lambda v: abs(v), "v ** 2": lambda v: v ** 2, "v ** 3": lambda v: v ** 3, "v ** 0.5": lambda v: v ** 0.5,
+                     "numpy.sqrt(v)": lambda v: numpy.sqrt(v), "numpy.cbrt(v)": lambda v: numpy.cbrt(v), "numpy.power(v, -1)": lambda v: numpy.power(v, -1.0),
+                     "v.dot(v)": lambda v: v.dot(v), "(v * 2.5).rho": lambda v: (v * 2.5).rho, "(v + v).phi": lambda v: (v + v).phi,
+                     "v.unit().rho": lambda v: v.unit().rho, "v.rotateZ(0.3).x": lambda v: v.rotateZ(0.3).x}
+            for fname, f_ in forms.items():
+                n += 1
+                try:
+                    a = numpy.asarray(ak.to_numpy(f_(ma)) if tag == "awkward" else f_(ma))
+                    b = numpy.asarray(ak.to_numpy(f_(ga)) if tag == "awkward" else f_(ga))
+                    same = a.shape == b.shape and bool(numpy.all((a == b) | (numpy.isnan(a) & numpy.isnan(b))))
+                    why = f"{a.tolist()[:3]} vs {b.tolist()[:3]}"
+                except Exception as e:  # noqa: BLE001
+                    same, why = False, f"{type(e).__name__}: {str(e)[:60]}"
+                if not same:
+                    dis.append(f"{tag} {sig}: {fname} of the momentum array differs from the generic array with the same coordinates: {why}"[:300])
+                    fails.append({"key": f"{tag}-flavor:{fname}", "what": dis[-1], "code": None})
     # numba: one compiled function per momentum dimension returning (alias, geometric) pairs
     from harness import c07, symobj
     import multiprocessing as mp
